@@ -59,15 +59,18 @@ func cacheConcReplay(v cacheConcVec) cacheConcObs {
 	cs := sdf.Cache2D(in)
 	work := map[int]chan int{}
 	done := map[int]chan float64{}
+	// all channels exist before any goroutine starts: the maps are read-only afterwards
 	for g := 1; g <= ng; g++ {
 		in.release[g] = make(chan struct{})
 		work[g] = make(chan int)
 		done[g] = make(chan float64, 1)
-		go func(g int) {
-			for p := range work[g] {
-				done[g] <- cs.Evaluate(v2.Vec{X: float64(p), Y: 0})
+	}
+	for g := 1; g <= ng; g++ {
+		go func(w chan int, d chan float64) {
+			for p := range w {
+				d <- cs.Evaluate(v2.Vec{X: float64(p), Y: 0})
 			}
-		}(g)
+		}(work[g], done[g])
 	}
 	cur := map[int]int{}
 	reply := func(g, p int, d float64, hit int) {
